@@ -481,6 +481,15 @@ theorem foreign_never_contained (K : Keyed) (w : List View) (evs : List (Nat × 
   refine ⟨_, view_isolated K w evs i _ h, ?_⟩
   exact forged_never_contained (C := K.at key) (g := K.hash key) (cap := cap) (offeredTo i evs) t hv
 
+/-- Naming the key: a view opened with a key object that also holds the secret is the view opened with the bare public
+    key — same key, same genesis (the hash of the PUBLIC serialisation), hence after any history the same tree.
+    (Fails for a constructor that keeps the object as given: `toBin` of a secret holder is the private serialisation.) -/
+theorem open_normalises_key (K : Keyed) (k : KeyObj) (cap : Nat) (ts : List Token) :
+    View.open k cap = View.open k.pub cap ∧ (View.open k cap).key = k.pubBin ∧
+    (View.open k cap).genesis K = K.hash k.pubBin ∧
+    (ts.foldl (View.offer K) (View.open k cap)) = ts.foldl (View.offer K) (View.open k.pub cap) :=
+  ⟨rfl, rfl, rfl, rfl⟩
+
 /-! ### the constants the source has today (regenerated on every run by tools/gen_c16.py) -/
 
 /-- the chunk size used by unserialize_public equals the width of the two hashes Token.unserialize reads -/
@@ -544,6 +553,7 @@ def tX : Token := ⟨[5], [60], [7], none⟩
 example : [View.fresh [7] 100, View.fresh [5] 100][1]? = some (View.fresh [5] 100) := rfl
 example : toyK.vfyK [7] tX.plain tX.sig = true ∧ toyK.vfyK [5] tX.plain tX.sig = false := by decide
 example : offeredTo 1 [(0, tX), (1, tX)] = [tX] := by decide
+example : (View.open ⟨[5], some [9, 9]⟩ 100).genesis toyK = [5] ∧ (⟨[5], some [9, 9]⟩ : KeyObj).toBin = [9, 9] := by decide
 /-- a duplicate of the stored bare token A that carries foreign content [66] is not taken over; the real content is -/
 def tAbad : Token := { tA with content := some [66] }
 def tAgood : Token := { tA with content := some [10] }
